@@ -141,6 +141,32 @@ theorem runM_forLoop_none {V : Type} {Inv : Locals V → Prop} {step : V → σ 
   rw [hfold] at h
   exact h
 
+/-- `while c: step` on the state alone, with the models' fuel convention -/
+def iterWhile (c : σ → Bool) (step : σ → σ) : Nat → σ → σ
+  | 0, s => s
+  | n + 1, s => if c s then iterWhile c step n (step s) else s
+
+/-- a `while` loop whose condition reads the state and whose body is a state transformer that falls through (the
+invariant ties the locals to the state): the loop is `iterWhile` -/
+theorem runM_whileFuel {V : Type} (Inv : Locals V → σ → Prop) (c : σ → Bool) (step : σ → σ)
+    (cond : Locals V → SM σ Bool) (body : Locals V → SM σ (Ctl V × Locals V))
+    (hcond : ∀ loc st, Inv loc st → runM (cond loc) st = (.ok (c st), st))
+    (hbody : ∀ loc st, Inv loc st → c st = true →
+      ∃ loc', runM (body loc) st = (.ok (.next, loc'), step st) ∧ Inv loc' (step st)) :
+    ∀ (fuel : Nat) (loc : Locals V) (st : σ), Inv loc st →
+      ∃ loc', runM (whileFuel cond body fuel loc) st = (.ok (.next, loc'), iterWhile c step fuel st) ∧
+        Inv loc' (iterWhile c step fuel st)
+  | 0, loc, st, hinv => ⟨loc, rfl, hinv⟩
+  | fuel + 1, loc, st, hinv => by
+    simp only [whileFuel, runM_bind, hcond loc st hinv, iterWhile]
+    cases hc : c st with
+    | false => exact ⟨loc, by simp, by simpa using hinv⟩
+    | true =>
+      obtain ⟨loc1, h1, hinv1⟩ := hbody loc st hinv hc
+      obtain ⟨loc2, h2, hinv2⟩ := runM_whileFuel Inv c step cond body hcond hbody fuel loc1 (step st) hinv1
+      refine ⟨loc2, ?_, by simpa using hinv2⟩
+      simp [h1, h2]
+
 /-- final state of a run that did not raise -/
 def stOut {α : Type} (r : Except String α × σ) : Option σ := match r.1 with | .ok _ => some r.2 | .error _ => none
 
